@@ -116,3 +116,20 @@ package certs
 //@   ensures[only_from_a_round_zero_decide_for_a_non_empty_value] result1 == nil ==> justification.Vote.Phase == gpbft.DECIDE_PHASE && justification.Vote.Round == 0 && !res(IsZero, 1) && argOf(IsZero, 1, 0) == justification.Vote.Value
 //@   ensures[carries_the_justification_unchanged] result1 == nil ==> result0 != nil && result0.GPBFTInstance == justification.Vote.Instance && result0.SupplementalData == justification.Vote.SupplementalData && result0.ECChain == justification.Vote.Value && result0.Signers == justification.Signers && result0.Signature == justification.Signature && result0.PowerTableDelta == powerDelta
 //@   ensures[no_certificate_on_error] result1 != nil ==> result0 == nil
+
+// C14 decoder sweep: no index, slice or allocation-size panic for any input the CBOR reader can produce.
+//@ func (*FinalityCertificate).UnmarshalCBOR
+//@   property C14
+//@   modifies auto
+//@   maypanic
+
+//@ func (*PowerTableDelta).UnmarshalCBOR
+//@   property C14
+//@   modifies auto
+//@   maypanic
+
+//@ func (*PowerTableDiff).UnmarshalCBOR
+//@   property C14
+//@   modifies auto
+//@   maypanic
+
